@@ -236,6 +236,10 @@ def make_programs(pid, tier, rng):
             # large shapes are expensive for the Re-Pair / FM-index builders: thin them in quick
             if not thorough and not small and kind in ("FMINDEX", "XBW") and len(S) > 30:
                 continue
+            # substring results are validated member by member (IsSubstr over the whole set on every event): even the
+            # thorough tier keeps C05 to inputs of at most 300 strings
+            if pid == "C05" and len(S) > 300:
+                continue
             # sets of thousands of strings: TLC pays for the size of the state on every event (~12 ms with 5 200 strings), so
             # they get a thin battery (no table scan, few queries) and, in the quick tier, only the properties they are for
             big = len(S) > 1000
